@@ -66,6 +66,7 @@ type vf09Call struct {
 	rx, tx, rp, tp uint64
 	ok             bool
 	seq            int
+	badID          bool // the call does not carry the session's own Acct-Session-Id / User-Name
 	held           bool // Interim whose response is still outstanding
 	resp           byte // pseudo call: 'K' / 'F' = a held response was delivered (acknowledged / failed)
 }
@@ -102,10 +103,17 @@ func (*vf09Provider) Info() provider.Info { return provider.Info{} }
 func (*vf09Provider) Authenticate(context.Context, *auth.AuthRequest) (*auth.AuthResponse, error) {
 	return &auth.AuthResponse{}, nil
 }
+
+// vf09BadID: the full key of a call is (SessionID, Acct-Session-Id, User-Name): the backend files the record under the latter two
+func vf09BadID(s *auth.Session) bool {
+	return s.AcctSessionID != "acct-"+s.SessionID || s.Username != "u"+s.SessionID
+}
+
 func (p *vf09Provider) rec(kind byte, s *auth.Session, ok bool) {
 	p.mu.Lock()
 	defer p.mu.Unlock()
-	p.calls = append(p.calls, vf09Call{kind: kind, sid: s.SessionID, rx: s.RxBytes, tx: s.TxBytes, rp: s.RxPackets, tp: s.TxPackets, ok: ok, seq: len(p.calls)})
+	p.calls = append(p.calls, vf09Call{kind: kind, sid: s.SessionID, rx: s.RxBytes, tx: s.TxBytes, rp: s.RxPackets, tp: s.TxPackets, ok: ok,
+		seq: len(p.calls), badID: vf09BadID(s)})
 }
 func (p *vf09Provider) StartAccounting(_ context.Context, s *auth.Session) error {
 	p.mu.Lock()
@@ -132,7 +140,7 @@ func (p *vf09Provider) UpdateAccounting(_ context.Context, s *auth.Session) erro
 		p.held = append(p.held, h)
 		p.anyHeldInt = true
 		p.calls = append(p.calls, vf09Call{kind: 'I', sid: s.SessionID, rx: s.RxBytes, tx: s.TxBytes, rp: s.RxPackets, tp: s.TxPackets,
-			seq: len(p.calls), held: true})
+			seq: len(p.calls), held: true, badID: vf09BadID(s)})
 		p.mu.Unlock()
 		<-h.release
 		if f {
@@ -576,6 +584,11 @@ func (w *vf09World) newComponent() {
 
 func (w *vf09World) payload(i int, ifx, hfx uint32, st models.SessionState) models.SubscriberSession {
 	s := w.sess[i]
+	if s.typ == models.AccessTypeL2TP {
+		// what internal/l2tp (LNS) publishes for a PPP-over-L2TP session
+		return &models.PPPoL2TPSession{SessionID: s.id, State: st, AccessType: string(models.AccessTypeL2TP), IfIndex: ifx,
+			Username: "u" + s.id, AAASessionID: "acct-" + s.id, IPv4Address: net.IPv4(10, 0, 0, byte(i+1))}
+	}
 	if s.typ == models.AccessTypeL2GW {
 		return &models.L2GWSession{SessionID: s.id, State: st, MAC: s.mac, AccessEntryIndex: ifx, HandoffEntryIndex: hfx,
 			Username: "u" + s.id, AAASessionID: "acct-" + s.id, OuterVLAN: 100, InnerVLAN: 7, AccessIfIndex: 3}
@@ -733,6 +746,8 @@ func vf09RunCase(line string, g0 int) (res string) {
 			typs[i] = models.AccessTypePPPoE
 		} else if p[1] == "g" {
 			typs[i] = models.AccessTypeL2GW
+		} else if p[1] == "t" {
+			typs[i] = models.AccessTypeL2TP
 		}
 	}
 	ids, classBucket, free, ok := vf09Assign(classes)
@@ -864,6 +879,9 @@ func vf09RunCase(line string, g0 int) (res string) {
 				} else {
 					t += ":f"
 				}
+			}
+			if c.badID && c.resp == 0 {
+				t += "!" // the record would be filed under another (or no) Acct-Session-Id / User-Name
 			}
 			tokOf[ci] = t
 		}
@@ -1106,29 +1124,36 @@ func (w *vf09World) exec(a []string) string {
 		if a[2] != "" && w.setSnap(a[2]) != nil {
 			return "badline"
 		}
-		w.db.mu.Lock()
-		for _, k := range w.db.heldKeys {
-			if k == w.sess[i].id {
-				if w.relWhilePut == nil {
-					w.relWhilePut = map[string]bool{}
-				}
-				w.relWhilePut[k] = true
-			}
-		}
-		w.db.mu.Unlock()
-		w.ap.mu.Lock()
-		for _, h := range w.ap.held {
-			if h.kind == 'I' && h.sid == w.sess[i].id {
-				if w.relWhileHeld == nil {
-					w.relWhileHeld = map[string]bool{}
-				}
-				w.relWhileHeld[h.sid] = true
-			}
-		}
-		w.ap.mu.Unlock()
 		sess := w.payload(i, 0, 0, models.SessionStateReleased)
 		w.c.handleSessionLifecycle(events.Event{Timestamp: time.Now(), Data: &events.SessionLifecycleEvent{
 			AccessType: w.sess[i].typ, Protocol: sess.GetProtocol(), SessionID: w.sess[i].id, State: models.SessionStateReleased, Session: sess}})
+		// only a release that really removed the accounting entry detaches it from an outstanding response / write
+		w.c.acctCacheMu.RLock()
+		_, still := w.c.acctCache[w.sess[i].id]
+		w.c.acctCacheMu.RUnlock()
+		if !still {
+			w.db.mu.Lock()
+			for _, k := range w.db.heldKeys {
+				if k == w.sess[i].id {
+					if w.relWhilePut == nil {
+						w.relWhilePut = map[string]bool{}
+					}
+					w.relWhilePut[k] = true
+				}
+			}
+			w.db.mu.Unlock()
+			w.ap.mu.Lock()
+			for _, h := range w.ap.held {
+				if h.kind == 'I' && h.sid == w.sess[i].id {
+					if w.relWhileHeld == nil {
+						w.relWhileHeld = map[string]bool{}
+					}
+					w.relWhileHeld[h.sid] = true
+				}
+			}
+			w.ap.mu.Unlock()
+		}
+
 	case "T":
 		b, mask := w.freeBucket, num(a[2])
 		if c, err := strconv.Atoi(a[1]); err == nil {
